@@ -146,5 +146,17 @@ def build_simA(san=False):
 
 if __name__ == "__main__":
     t0 = time.time()
-    print(build_simA("--san" in sys.argv))
+    try:
+        if "--all" in sys.argv:
+            build_simA()
+            try:
+                import build_b
+                build_b.build_simB()
+            except ImportError:
+                pass
+        else:
+            print(build_simA("--san" in sys.argv))
+    except HarnessError as e:
+        print("HARNESS-ERROR %s" % e)
+        sys.exit(2)
     print("built in %.1fs" % (time.time() - t0))
